@@ -9,6 +9,7 @@ import (
 	"fmt"
 	"math/big"
 	"math/rand"
+	"sync/atomic"
 
 	"perun.network/go-perun/channel"
 	"perun.network/go-perun/wallet"
@@ -337,8 +338,19 @@ func (e *Exec) successor(base *channel.State, class int) (*channel.State, channe
 
 func (e *Exec) signOver(i int, st *channel.State) wallet.Sig { return gen.Sign(e.W.Parties[i], st) }
 
+// HarnessPanics counts steps skipped because the explorer's bookkeeping panicked.
+var HarnessPanics int64
+
 // Apply executes op on the real machine and on the model.
-func (e *Exec) Apply(op Op) *Step {
+func (e *Exec) Apply(op Op) (ret *Step) {
+	// The explorer's own bookkeeping must never bring the check down: after a reported defect the
+	// implementation may be in a state the model has no picture of. Such a step is skipped and counted.
+	defer func() {
+		if p := recover(); p != nil {
+			atomic.AddInt64(&HarnessPanics, 1)
+			ret = &Step{Op: op, Applicable: false}
+		}
+	}()
 	src := e.D.Source()
 	st := &Step{Op: op, Applicable: true, ModelBefore: e.M}
 	st.ModelBefore.StagedSig = append([]bool(nil), e.M.StagedSig...)
@@ -425,6 +437,9 @@ func (e *Exec) Apply(op Op) *Step {
 		st.WantOK = inS(m.Phase)
 		call = func() (err error) { st.SigOut, err = e.D.Sig(); return }
 		if st.WantOK {
+			if len(m.StagedSig) < n { // only after a reported defect left phase and staging inconsistent
+				m.StagedSig = make([]bool, n)
+			}
 			m.StagedSig[e.W.Idx] = true
 		}
 	case OpAddSig:
@@ -466,6 +481,9 @@ func (e *Exec) Apply(op Op) *Step {
 			sig = nil
 		}
 		st.ArgSig = sig
+		if len(m.StagedSig) < n {
+			m.StagedSig = make([]bool, n)
+		}
 		st.WantOK = inS(m.Phase) && staged != nil && !m.StagedSig[op.I] && op.Class == SigValid
 		i := channel.Index(op.I)
 		call = func() error { return e.D.AddSig(i, sig) }
